@@ -85,6 +85,12 @@ def euler_records(rnd, tier):
                 rt = max(rt, int(np.max([core.ulps(float(x), float(y), max(sc, 1e-300)) for x, y in zip(np.ravel(a_), np.ravel(b_))])))
             recs.append(base(name="(roundtrip)", model=which, roundtrip=rt))
             fld = None
+            # observed where the property says: field.phydata(name) on a field of the model (every other case keeps the direct
+            # model.nameddata entry point, so both public ways in are exercised)
+            if which == "euler1d" and c % 4 < 2:
+                fld = fd.field.fdata(model, fd.uniform(n), [np.array(x, dtype=float) for x in q])
+            if which == "euler2d" and c % 4 < 2:
+                fld = fd.field.fdata(model, fd.mesh2d.mesh2d(n, 1, 1.0, 1.0), [np.array(x, dtype=float) for x in q])
             if which == "nozzle":
                 # observed as the property says, through field.phydata, on a field that lives on ITS mesh, after the model was
                 # given to a sibling mesh (same cell count and length, other cell positions) as a second operator would do
